@@ -378,11 +378,11 @@ macro_rules! leaf {
     };
 }
 
-//@ {"p":"C19","tier":"quick","clause":"leaf of (200,9) for every index i: hash input block is i/2, the leaf takes bytes [(i%2)*25, +25) of the 50-byte output and expands them to 10 big-endian 20-bit segments in 3 bytes each; indices == [i]","bounds":"all u32 indices, all 64-byte hash outputs (generate_hash stubbed: arbitrary hash function)","assume":"stub: equihash::verify::generate_hash returns an arbitrary row and records its argument; native replay uses real BLAKE2b","covers":1,"t":900,"stub":true}
+//@ {"p":"C19","tier":"quick","clause":"leaf of (200,9) for every index i: hash input block is i/2, the leaf takes bytes [(i%2)*25, +25) of the 50-byte output and expands them to 10 big-endian 20-bit segments in 3 bytes each; indices == [i]","bounds":"all u32 indices, all 64-byte hash outputs (generate_hash stubbed: arbitrary hash function)","assume":"stub: equihash::verify::generate_hash returns an arbitrary row and records its argument; native replay uses real BLAKE2b","covers":1,"t":900,"stub":true,"replay":"model"}
 leaf!(c19_leaf_200_9, 200, 9);
-//@ {"p":"C19","tier":"thorough","clause":"leaf of (48,5): 10 indices per 60-byte output, 8-bit segments (expand_array no-op path)","bounds":"all u32 indices, all hash outputs","assume":"stub: generate_hash arbitrary","covers":1,"t":900,"stub":true}
+//@ {"p":"C19","tier":"thorough","clause":"leaf of (48,5): 10 indices per 60-byte output, 8-bit segments (expand_array no-op path)","bounds":"all u32 indices, all hash outputs","assume":"stub: generate_hash arbitrary","covers":1,"t":900,"stub":true,"replay":"model"}
 leaf!(c19_leaf_48_5, 48, 5);
-//@ {"p":"C19","tier":"thorough","clause":"leaf of (96,5): 16-bit segments","bounds":"all u32 indices, all hash outputs","assume":"stub: generate_hash arbitrary","covers":1,"t":900,"stub":true}
+//@ {"p":"C19","tier":"thorough","clause":"leaf of (96,5): 16-bit segments","bounds":"all u32 indices, all hash outputs","assume":"stub: generate_hash arbitrary","covers":1,"t":900,"stub":true,"replay":"model"}
 leaf!(c19_leaf_96_5, 96, 5);
 
 // ---------------------------------------------------------------------------------------------
@@ -479,11 +479,11 @@ macro_rules! root_check {
     };
 }
 
-//@ {"p":"C19","tier":"quick","name":"c19_root_1leaf_200_9","clause":"root test through tree_validator + is_valid_solution_recursive on a 1-leaf tree of (200,9): accepted iff the leaf's first 20-bit segment is zero over ALL its bits (ceil(20/8)=3 bytes), else NonZeroRootHash","bounds":"all u32 indices, all hash rows (generate_hash stubbed: arbitrary hash function)","assume":"stub: generate_hash arbitrary; a 1-leaf tree is not a full solution (reached through the verif hook)","covers":2,"t":1800,"stub":true,"unwindset":{"verify::distinct_indices.*":3,"minimal::expand_array.0":5,"minimal::expand_array.1":27,"fn:equihash::verify::tree_validator":3}}
-//@ {"p":"C19","tier":"experimental","name":"c19_root_2leaf_200_9","clause":"2-leaf tree of (200,9): accepted iff the first segments collide, i<j, and the xor of the second segments is zero over the whole segment; error kinds in the documented precedence (Collision, OutOfOrder, DuplicateIdxs, NonZeroRootHash)","bounds":"all pairs of u32 indices in the same hash block, all hash rows","assume":"stub: generate_hash arbitrary but consistent","covers":3,"t":1800,"stub":true,"unwindset":{"verify::distinct_indices.*":3,"minimal::expand_array.0":5,"minimal::expand_array.1":27,"fn:equihash::verify::tree_validator":3}}
+//@ {"p":"C19","tier":"quick","name":"c19_root_1leaf_200_9","clause":"root test through tree_validator + is_valid_solution_recursive on a 1-leaf tree of (200,9): accepted iff the leaf's first 20-bit segment is zero over ALL its bits (ceil(20/8)=3 bytes), else NonZeroRootHash","bounds":"all u32 indices, all hash rows (generate_hash stubbed: arbitrary hash function)","assume":"stub: generate_hash arbitrary; a 1-leaf tree is not a full solution (reached through the verif hook)","covers":2,"t":1800,"stub":true,"replay":"model","unwindset":{"verify::distinct_indices.*":3,"minimal::expand_array.0":5,"minimal::expand_array.1":27,"fn:equihash::verify::tree_validator":3}}
+//@ {"p":"C19","tier":"experimental","name":"c19_root_2leaf_200_9","clause":"2-leaf tree of (200,9): accepted iff the first segments collide, i<j, and the xor of the second segments is zero over the whole segment; error kinds in the documented precedence (Collision, OutOfOrder, DuplicateIdxs, NonZeroRootHash)","bounds":"all pairs of u32 indices in the same hash block, all hash rows","assume":"stub: generate_hash arbitrary but consistent","covers":3,"t":1800,"stub":true,"replay":"model","unwindset":{"verify::distinct_indices.*":3,"minimal::expand_array.0":5,"minimal::expand_array.1":27,"fn:equihash::verify::tree_validator":3}}
 root_check!(c19_root_1leaf_200_9, c19_root_2leaf_200_9, 200, 9);
-//@ {"p":"C19","tier":"thorough","name":"c19_root_1leaf_48_3","clause":"same 1-leaf root test for (48,3): 12-bit segments in 2 bytes","bounds":"all indices and rows","assume":"stub: generate_hash arbitrary","covers":2,"t":1800,"stub":true,"unwindset":{"verify::distinct_indices.*":3,"minimal::expand_array.0":5,"minimal::expand_array.1":27,"fn:equihash::verify::tree_validator":3}}
-//@ {"p":"C19","tier":"experimental","name":"c19_root_2leaf_48_3","clause":"same 2-leaf test for (48,3)","bounds":"all index pairs in one block, all rows","assume":"stub: generate_hash arbitrary consistent","covers":3,"t":1800,"stub":true,"unwindset":{"verify::distinct_indices.*":3,"minimal::expand_array.0":5,"minimal::expand_array.1":27,"fn:equihash::verify::tree_validator":3}}
+//@ {"p":"C19","tier":"thorough","name":"c19_root_1leaf_48_3","clause":"same 1-leaf root test for (48,3): 12-bit segments in 2 bytes","bounds":"all indices and rows","assume":"stub: generate_hash arbitrary","covers":2,"t":1800,"stub":true,"replay":"model","unwindset":{"verify::distinct_indices.*":3,"minimal::expand_array.0":5,"minimal::expand_array.1":27,"fn:equihash::verify::tree_validator":3}}
+//@ {"p":"C19","tier":"experimental","name":"c19_root_2leaf_48_3","clause":"same 2-leaf test for (48,3)","bounds":"all index pairs in one block, all rows","assume":"stub: generate_hash arbitrary consistent","covers":3,"t":1800,"stub":true,"replay":"model","unwindset":{"verify::distinct_indices.*":3,"minimal::expand_array.0":5,"minimal::expand_array.1":27,"fn:equihash::verify::tree_validator":3}}
 root_check!(c19_root_1leaf_48_3, c19_root_2leaf_48_3, 48, 3);
 
 // Near-miss lengths with ARBITRARY contents: the decoder must refuse a solution that is one byte
